@@ -1,4 +1,14 @@
 // Environment of unit `archive_chain` (C26). Everything here is ASSUMED.
+//
+// The unit verifies the chain-manipulating functions of utils::archive::Archive<Meta> against a
+// BYTE-LEVEL ghost reading of the storage: `byte(s, i)` is the i-th byte of the backing file as
+// seen through Storage value `s`. The accessor layer of the file (the functions that go through
+// Storage::read / Storage::write with a closure: ObjectHeader::{read, read_with_name, write,
+// update_next}, Archive::{get_index, set_index, get_empty_index, set_empty_index, write_object},
+// Storage::set_len) is DECLARED here, not verified: each contract states which bytes the function
+// decodes or which byte range [lo, hi) it overwrites (`wrote`), nothing else. That header,
+// name, data and index-slot records at non-overlapping positions are independent is PROVED from
+// that (lemma_frame in the overlay), not assumed.
 
 // ---- std::num::NonZeroU64 (stand-in: a transparent wrapper; every producer states v != 0) ----
 #[derive(Clone, Copy)]
@@ -35,39 +45,214 @@ impl From<NonZeroU64> for u64 {
 #[verifier::external_body] pub struct File { _opaque: () }
 #[verifier::external_body] pub struct Mmap { _opaque: () }
 #[verifier::external_body] #[verifier::reject_recursive_types(T)] pub struct Mutex<T> { _t: T }
+#[verifier::external_body] pub struct StorageRead { _opaque: () }
+#[verifier::external_body] pub struct StorageWrite { _opaque: () }
 
+// ArchiveMeta::hash_name: SipHash-2-4 of the name under the archive's key, modulo the bucket count
+// (`%` panics for a zero bucket count: C27's subject)
+uninterp spec fn hash_spec(m: ArchiveMeta, name: Seq<u8>) -> u64;
+impl ArchiveMeta {
+    #[verifier::external_body]
+    fn hash_name(&self, name: &[u8]) -> (r: u64)
+        requires self.bucket_count != 0,
+        ensures r == hash_spec(*self, name@), r < self.bucket_count,
+    { unimplemented!() }
+}
+// what hash_name's `% bucket_count` guarantees for every name
+broadcast axiom fn hash_in_range(m: ArchiveMeta, name: Seq<u8>)
+    requires m.bucket_count != 0,
+    ensures #[trigger] hash_spec(m, name) < m.bucket_count,
+;
+
+// utils::archive::ObjectMeta, reduced to what the chain functions need: the fixed encoded size
+// and the encoding itself ("write must write exactly SIZE bytes", doc comment of the trait).
 pub trait ObjectMeta: Sized {
-    spec fn size_spec() -> usize;
+    const SIZE: usize;
+    spec fn enc(&self) -> Seq<u8>;
+}
+spec fn ms<M: ObjectMeta>() -> int { M::SIZE as int }
+// Archive::min_object_size as a function of a header: header + name + meta + data
+spec fn rec_len(h: ObjectHeader, ms: int) -> int { hs() + h.name_len + ms + h.data_len }
+
+// ---- ghost reading of the storage ----------------------------------------------------------
+// The i-th byte of the file. Positions at or beyond `size` have no meaning.
+uninterp spec fn byte(s: Storage, i: int) -> u8;
+spec fn bytes(s: Storage, lo: int, len: int) -> Seq<u8> { Seq::new(len as nat, |k: int| byte(s, lo + k)) }
+
+// Decoders of the fixed-size records (native-endian integers; the 33-byte object header).
+uninterp spec fn dec_u64(b: Seq<u8>) -> u64;
+uninterp spec fn dec_hdr(b: Seq<u8>) -> ObjectHeader;
+// The written size of an object header (ObjectHeader::SIZE) and of a u64.
+// ObjectHeader::SIZE (pathmap): Verus cannot evaluate `usize_to_u64(mem::size_of::<u64>() + ..)` in a
+// const, so the value for 64-bit targets (8 + 8 + 1 + 8 + 8) is declared here.
+pub const HEADER_SIZE: u64 = 33;
+spec fn hs() -> int { HEADER_SIZE as int }
+// Position of index slot `b` (Archive::index_pos; Archive::empty_index_pos is slot bucket_count),
+// and the first byte after the index (MAGIC + ArchiveMeta + Archive::index_size).
+uninterp spec fn idx0() -> nat;
+spec fn slot_pos(b: int) -> int { idx0() as int + 8 * b }
+spec fn data_start(nb: int) -> int { idx0() as int + 8 * (nb + 1) }
+
+// The header record at `pos`, the name that follows it, the meta data (ms = Meta::SIZE bytes)
+// and the data after that; the raw value of index slot b.
+#[verifier::opaque]
+spec fn hdr(s: Storage, pos: u64) -> ObjectHeader { dec_hdr(bytes(s, pos as int, hs())) }
+#[verifier::opaque]
+spec fn name_at(s: Storage, pos: u64) -> Seq<u8> { bytes(s, pos + hs(), hdr(s, pos).name_len as int) }
+#[verifier::opaque]
+spec fn meta_at(s: Storage, pos: u64, ms: int) -> Seq<u8> { bytes(s, pos + hs() + hdr(s, pos).name_len, ms) }
+#[verifier::opaque]
+spec fn data_at(s: Storage, pos: u64, ms: int) -> Seq<u8> {
+    bytes(s, pos + hs() + hdr(s, pos).name_len + ms, hdr(s, pos).data_len as int)
+}
+#[verifier::opaque]
+spec fn slot(s: Storage, b: int) -> u64 { dec_u64(bytes(s, slot_pos(b), 8)) }
+
+spec fn nz(v: u64) -> Option<NonZeroU64> { if v == 0 { None } else { Some(NonZeroU64 { v }) } }
+spec fn raw(p: Option<NonZeroU64>) -> u64 { match p { Some(n) => n.v, None => 0 } }
+
+// A write step: only bytes in [lo, hi) may differ.
+spec fn wrote(s1: Storage, s2: Storage, lo: int, hi: int) -> bool {
+    forall|i: int| 0 <= i && !(lo <= i < hi) ==> byte(s2, i) == #[trigger] byte(s1, i)
+}
+// Storage::write appends (and grows `size`) exactly when the start position is the current size.
+spec fn size_after(s1: Storage, s2: Storage, start: int, len: int) -> bool {
+    s2.size == if start == s1.size { s1.size + len } else { s1.size as int }
 }
 
-// ---- ghost reading of the storage ----
-pub uninterp spec fn hdr(s: Storage, pos: u64) -> ObjectHeader;
-pub uninterp spec fn empty_slot(s: Storage) -> u64;
+// "everything from position lo on" as the upper end of a written range
+spec fn eof() -> int { 0x1_0000_0000_0000_0000_0000 }
+impl Storage {
+    // self.file.lock().set_len(len); self.mmap(): truncates (or zero-extends) the file to len bytes
+    #[verifier::external_body]
+    fn set_len(&mut self, len: u64) -> (r: Result<(), ArchiveError>)
+        ensures r is Ok ==> final(self).size == len && wrote(*old(self), *final(self), len as int, eof()),
+    { unimplemented!() }
+}
 
-pub open spec fn nz(v: u64) -> Option<NonZeroU64> {
-    if v == 0 { None } else { Some(NonZeroU64 { v }) }
+// std::borrow::Cow<'_, [u8]> as returned by StorageRead::read_slice: borrowed from the memory map or owned
+#[verifier::external_body] pub struct CowBytes { _opaque: () }
+impl CowBytes {
+    pub uninterp spec fn view(&self) -> Seq<u8>;
+    #[verifier::external_body]
+    pub fn as_ref(&self) -> (r: &[u8])
+        ensures r@ == self.view(),
+    { unimplemented!() }
 }
 
 impl ObjectHeader {
+    // storage.read(start, |read| { let header = Self::read_from(read)?; let name = read.read_slice(header.name_len)?; Ok((header, name)) })
     #[verifier::external_body]
-    fn read(storage: &Storage, start: u64) -> (r: Result<ObjectHeader, ArchiveError>)
-        ensures r matches Ok(h) ==> h == hdr(*storage, start),
+    fn read_with_name(storage: &Storage, start: u64) -> (r: Result<(ObjectHeader, CowBytes), ArchiveError>)
+        ensures r matches Ok(hn) ==> hn.0 == hdr(*storage, start) && hn.1.view() == name_at(*storage, start) && start <= storage.size,
     { unimplemented!() }
 
+    // storage.read(start, Self::read_from)
+    #[verifier::external_body]
+    fn read(storage: &Storage, start: u64) -> (r: Result<ObjectHeader, ArchiveError>)
+        ensures r matches Ok(h) ==> h == hdr(*storage, start) && start <= storage.size,
+    { unimplemented!() }
+
+    // storage.write(start, |write| self.write_into(write)): the 33 bytes at start
+    #[verifier::external_body]
+    fn write(&self, storage: &mut Storage, start: u64) -> (r: Result<(), ArchiveError>)
+        ensures r is Ok ==> {
+            &&& hdr(*final(storage), start) == *self
+            &&& wrote(*old(storage), *final(storage), start as int, start + hs())
+            &&& size_after(*old(storage), *final(storage), start as int, hs())
+            &&& start <= old(storage).size
+        },
+    { unimplemented!() }
+
+    // storage.write(start + 8, |write| write.write_nonzero_u64(new_next)): the 8 bytes of `next`
     #[verifier::external_body]
     fn update_next(start: u64, new_next: Option<NonZeroU64>, storage: &mut Storage) -> (r: Result<(), ArchiveError>)
-        ensures true,
+        requires start + 8 <= u64::MAX,
+        ensures r is Ok ==> {
+            &&& hdr(*final(storage), start) == (ObjectHeader { next: new_next, ..hdr(*old(storage), start) })
+            &&& wrote(*old(storage), *final(storage), start + 8, start + 16)
+            &&& size_after(*old(storage), *final(storage), start + 8, 8)
+        },
     { unimplemented!() }
 }
 
 impl<Meta> Archive<Meta> {
     #[verifier::external_body]
+    fn get_index(&self, hash: u64) -> (r: Result<Option<NonZeroU64>, ArchiveError>)
+        ensures r matches Ok(p) ==> p == nz(slot(self.file, hash as int)),
+    { unimplemented!() }
+
+    #[verifier::external_body]
     fn get_empty_index(&self) -> (r: Result<Option<NonZeroU64>, ArchiveError>)
-        ensures r matches Ok(p) ==> p == nz(empty_slot(self.file)),
+        ensures r matches Ok(p) ==> p == nz(slot(self.file, self.meta.bucket_count as int)),
+    { unimplemented!() }
+
+    #[verifier::external_body]
+    fn set_index(&mut self, hash: u64, pos: Option<NonZeroU64>) -> (r: Result<(), ArchiveError>)
+        ensures
+            final(self).meta == old(self).meta,
+            r is Ok ==> {
+                &&& slot(final(self).file, hash as int) == raw(pos)
+                &&& wrote(old(self).file, final(self).file, slot_pos(hash as int), slot_pos(hash as int) + 8)
+                &&& size_after(old(self).file, final(self).file, slot_pos(hash as int), 8)
+            },
     { unimplemented!() }
 
     #[verifier::external_body]
     fn set_empty_index(&mut self, pos: Option<NonZeroU64>) -> (r: Result<(), ArchiveError>)
-        ensures true,
+        ensures
+            final(self).meta == old(self).meta,
+            r is Ok ==> {
+                &&& slot(final(self).file, old(self).meta.bucket_count as int) == raw(pos)
+                &&& wrote(old(self).file, final(self).file, slot_pos(old(self).meta.bucket_count as int), slot_pos(old(self).meta.bucket_count as int) + 8)
+                &&& size_after(old(self).file, final(self).file, slot_pos(old(self).meta.bucket_count as int), 8)
+            },
     { unimplemented!() }
 }
+
+impl<Meta: ObjectMeta> Archive<Meta> {
+    // self.file.write(start, |write| { head.write_into(write)?; write.write(name)?; meta.write(write)?;
+    //   write.write(data)?; <padding up to head.size> })
+    #[verifier::external_body]
+    fn write_object(&mut self, start: u64, head: ObjectHeader, name: &[u8], meta: &Meta, data: &[u8]) -> (r: Result<(), ArchiveError>)
+        requires
+            // the two `expect`s and `&PAGE[..padding]` in the closure: 0 <= padding <= PAGE_SIZE
+            hs() + name@.len() + ms::<Meta>() + data@.len() <= head.size,
+            head.size <= hs() + name@.len() + ms::<Meta>() + data@.len() + 256,
+        ensures
+            final(self).meta == old(self).meta,
+            r is Ok ==> {
+                &&& hdr(final(self).file, start) == head
+                &&& head.name_len == name@.len() && head.data_len == data@.len() ==> {
+                        &&& name_at(final(self).file, start) == name@
+                        &&& meta_at(final(self).file, start, ms::<Meta>()) == meta.enc()
+                        &&& data_at(final(self).file, start, ms::<Meta>()) == data@
+                    }
+                &&& wrote(old(self).file, final(self).file, start as int, start + head.size)
+                &&& size_after(old(self).file, final(self).file, start as int, head.size as int)
+                &&& start <= old(self).file.size
+            },
+    { unimplemented!() }
+}
+
+// ---- std functions without a vstd specification ----
+// u64::next_multiple_of: the least multiple of rhs that is >= self; panics if rhs == 0 or on overflow
+pub assume_specification [u64::next_multiple_of] (x: u64, rhs: u64) -> (r: u64)
+    requires rhs != 0, x + rhs <= u64::MAX,
+    ensures r >= x, r - x < rhs, r % rhs == 0,
+;
+// impl<T> From<T> for Option<T> (used as `nonzero.into()` where an Option<NonZeroU64> is expected)
+pub assume_specification<T> [<Option<T> as From<T>>::from] (t: T) -> (r: Option<T>)
+    ensures r == Some(t),
+;
+
+// <[T]>::sort_by_key: a stable sort is a permutation; nothing is claimed about the order
+pub assume_specification<T, K: Ord, F: FnMut(&T) -> K> [<[T]>::sort_by_key] (v: &mut [T], f: F)
+    ensures
+        final(v)@.len() == old(v)@.len(),
+        final(v)@.to_multiset() == old(v)@.to_multiset(),
+        forall|i: int| 0 <= i < final(v)@.len() ==> old(v)@.contains(#[trigger] final(v)@[i]),
+;
+pub assume_specification<'a, T: Copy> [std::option::Option::<&T>::copied] (o: Option<&'a T>) -> (r: Option<T>)
+    ensures r == (match o { Some(x) => Some(*x), None => None }),
+;
